@@ -39,6 +39,13 @@ def build(cfg):
                 if sub.get("align_to") is not None:
                     dec.align_to(sub["align_to"])
                 dec.add(bus, name=sub.get("name"), addr=sub.get("addr"))
+                if cfg.get("use_between"):
+                    list(dec.bus.memory_map.window_patterns())
+                    list(dec.bus.memory_map.all_resources())
+                    if i == 0 and path == "":
+                        from amaranth.hdl import Fragment
+                        from amaranth.hdl._ir import build_netlist
+                        build_netlist(Fragment.get(dec, None), ports=[])
             return dec.bus
         if node["kind"] == "stub":
             bus = csr.Interface(addr_width=node["aw"], data_width=dw, path=(f"leaf{path}",))
@@ -239,6 +246,8 @@ def configs(tier):
                 continue        # nested tree on a 2-bit bus: 5e4 states x 256 letters, thorough only
             for side in ("r", "w"):
                 out.append(dict(part=2, dw=dw, side=side, tree=t))
+    # a few routing configurations with the decoder queried / elaborated between the add() calls
+    out += [dict(c, use_between=True) for c in out if c["part"] == 1 and len(c["tree"]["subs"]) >= 2][::(9 if quick else 3)]
     return out
 
 
